@@ -2,6 +2,7 @@ import Driver.Common
 import Driver.Val
 import TxdbusModel.Wire.Code
 import TxdbusModel.Wire.Spec
+import TxdbusModel.Wire.ToSpec
 /-!
 Line protocol shared by the drivers of C01 and C02 (wire codec).  One operation per line:
 
@@ -10,8 +11,11 @@ Line protocol shared by the drivers of C01 and C02 (wire codec).  One operation 
         -> `ok <nbytes> <byteshex> <fds after>` | `err <ExceptionName>`
   unmarshal <sig> <offset> <L|B> <datahex> <fds> Code.unmarshal
         -> `ok <nbytes> <value (a list)>` | `err <ExceptionName>`
-  specenc <sig> <start> <L|B> <values>           Spec.encodeAll on the spec value that the Python values denote
-        -> `ok <byteshex>` | `none`
+  specenc <sig> <start> <L|B> <values>           Spec.encodeAll on the spec value that the Python values denote, found by
+                                                 `Code.toSpecTop` (sound w.r.t. `Code.Conf`: Proofs/Wire/ToSpecSound) after
+                                                 `Code.keysOKCheck`: an `ok` certifies that the case satisfies the hypotheses of
+                                                 `C01_roundtrip_checked` / `C02_encode_checked`
+        -> `ok <byteshex>` | `none <not-conforming|keys|limits|signature>`
   specdec <sig> <offset> <L|B> <datahex>         Spec.decode, printed as the Python value unmarshal should give
         -> `ok <nbytes> <value (a list)>` | `none`
   padlen <code> <offset>                         -> `ok <n>` | `err <ExceptionName>`   (Code.padLenOf)
@@ -39,110 +43,8 @@ def fdsToVal : Code.Fds → PyVal
   | Option.none => .none
   | some xs => .list xs
 
-/-! Python values -> spec values (driver only: what the values denote at a given type). -/
-
-def tyHasFd : Nat → Ty → Bool
-  | 0, _ => true
-  | _ + 1, .basic .h => true
-  | _ + 1, .basic _ => false
-  | _ + 1, .variant => false
-  | n + 1, .array e => tyHasFd n e
-  | n + 1, .struct fs => fs.any (tyHasFd n)
-  | n + 1, .dict k v => tyHasFd n k || tyHasFd n v
-
-def structItems : PyVal → Option (List PyVal)
-  | .obj _ _ fields => some fields
-  | .list xs => some xs
-  | .tuple xs => some xs
-  | _ => Option.none
-
-mutual
-/-- `toSpecF fuel t pv k`: the spec value denoted by `pv` at type `t`; `k` counts the descriptors
-handed out so far (a `h` value denotes its index). -/
-def toSpecF : Nat → Ty → PyVal → Nat → Option (Val × Nat)
-  | 0, _, _, _ => Option.none
-  | fuel + 1, t, pv, k =>
-    match t with
-    | .basic c =>
-      match c with
-      | .h => some (.int k, k + 1)
-      | .b =>
-        match pv with
-        | .bool b => some (.bool b, k)
-        | .int _ 0 => some (.bool false, k)
-        | .int _ 1 => some (.bool true, k)
-        | _ => Option.none
-      | .d =>
-        match pv with
-        | .float bits => some (.double bits, k)
-        | _ => Option.none
-      | .s | .o | .g =>
-        match pv with
-        | .str _ cs => some (.str (utf8Encode cs), k)
-        | _ => Option.none
-      | _ =>
-        match pv with
-        | .bool _ => Option.none
-        | .int _ n => some (.int n, k)
-        | _ => Option.none
-    | .variant =>
-      match sigFromPy pv with
-      | .ok sg =>
-        match parseSingle sg with
-        | some t' =>
-          if tyHasFd 64 t' then Option.none
-          else
-            match toSpecF fuel t' pv k with
-            | some (v, k') => some (.variant t' v, k')
-            | Option.none => Option.none
-        | Option.none => Option.none
-      | .error _ => Option.none
-    | .array el =>
-      match Code.arrayItems pv with
-      | .ok items =>
-        match toSpecElemsF fuel el items k with
-        | some (vs, k') => some (.array vs, k')
-        | Option.none => Option.none
-      | .error _ => Option.none
-    | .struct fs =>
-      match structItems pv with
-      | some items =>
-        match toSpecFieldsF fuel fs items k with
-        | some (vs, k') => some (.struct vs, k')
-        | Option.none => Option.none
-      | Option.none => Option.none
-    | .dict kt vt =>
-      match structItems pv with
-      | some [a, b] =>
-        match toSpecF fuel kt a k with
-        | some (ka, k1) =>
-          match toSpecF fuel vt b k1 with
-          | some (vb, k2) => some (.entry ka vb, k2)
-          | Option.none => Option.none
-        | Option.none => Option.none
-      | _ => Option.none
-def toSpecElemsF : Nat → Ty → List PyVal → Nat → Option (List Val × Nat)
-  | 0, _, _, _ => Option.none
-  | _ + 1, _, [], k => some ([], k)
-  | fuel + 1, el, x :: xs, k =>
-    match toSpecF fuel el x k with
-    | some (v, k1) =>
-      match toSpecElemsF fuel el xs k1 with
-      | some (vs, k2) => some (v :: vs, k2)
-      | Option.none => Option.none
-    | Option.none => Option.none
-def toSpecFieldsF : Nat → List Ty → List PyVal → Nat → Option (List Val × Nat)
-  | 0, _, _, _ => Option.none
-  | _ + 1, [], [], k => some ([], k)
-  | fuel + 1, t :: ts, x :: xs, k =>
-    match toSpecF fuel t x k with
-    | some (v, k1) =>
-      match toSpecFieldsF fuel ts xs k1 with
-      | some (vs, k2) => some (v :: vs, k2)
-      | Option.none => Option.none
-    | Option.none => Option.none
-  | _ + 1, _, _, _ => Option.none
-end
+/-- Step budget of `Code.toSpecTop` (one step per nesting level and per list element). -/
+def toSpecFuel : Nat := 200000
 
 /-! Spec values -> the Python value `unmarshal` is expected to return (descriptors stay indices). -/
 
@@ -221,15 +123,18 @@ def wireStep (line : String) : String :=
   | "specenc" :: sg :: start :: en :: rest =>
     match hexToChars? sg, start.toNat?, parseEndian? en, parseVals 1 rest with
     | some sig, some start, some le, some ([vals], []) =>
-      match parseSig sig, structItems vals with
-      | some ts, some items =>
-        match toSpecFieldsF 1000 ts items 0 with
+      match parseSig sig with
+      | some ts =>
+        -- `Code.toSpecTop` + `Code.keysOKCheck`: the executable hypotheses of C01_roundtrip_checked / C02_encode_checked
+        match Code.toSpecTop toSpecFuel ts vals with
         | some (vs, _) =>
-          match Spec.encodeAll Spec.alignTable (endianOf le) ts vs start with
-          | some bs => "ok " ++ bytesToHex bs
-          | Option.none => "none"
-        | Option.none => "none"
-      | _, _ => "none"
+          if Code.keysOKCheck vals then
+            match Spec.encodeAll Spec.alignTable (endianOf le) ts vs start with
+            | some bs => "ok " ++ bytesToHex bs
+            | Option.none => "none limits"
+          else "none keys"
+        | Option.none => "none not-conforming"
+      | Option.none => "none signature"
     | _, _, _, _ => "bad-input"
   | ["specdec", sg, off, en, data] =>
     match hexToChars? sg, off.toNat?, parseEndian? en, hexToBytes? data with
